@@ -37,6 +37,16 @@ CHECKS = {
         "note": _INFL_NOTE,
         "technique": "TLA+ spec + TLC exhaustive over coincidence patterns; spec->code replay with unique on/off",
     },
+    "C13": {
+        "text": "TimeGrid.tla states the grid in exact integer (quarter-tick) arithmetic with one action per loop iteration; TLC checks coverage (n = number of whole steps, on-grid end included), sortedness, alignment and the final-only label on every state and emits the expected label sequence for every (api, dt, start, m, offset, record_all); ticks are mapped to decimal literals and the real Tempo, MeanFieldTempo, PtTempo(+compute_dynamics), compute_dynamics, compute_dynamics_with_field, compute_gradient_and_dynamics and PtTebd are run; labels, lengths and (through a precession phase) the step each stored state belongs to are compared.",
+        "note": "Trusted: TLC, decimal-literal mapping, qubit precession decode (unique below 1024 steps). m up to 12 (quick) / 1000 for the cheap APIs and 120 for TEMPO (thorough).",
+        "technique": "TLA+ spec + TLC exhaustive over grid parameters; spec->code replay through every API",
+    },
+    "C14": {
+        "text": "Stepper.tla models method objects at the granularity of the code's loop iterations (evaluate user callables, mutate network, advance counter, record) for Tempo, MeanFieldTempo, PtTebd (with export/restart), PtTempo and GibbsTempo; TLC checks history independence, idempotence and no-op-when-reached over all histories of calls and all injected transient failures in the bound, proves that each named deviation (the defects found) violates them, and emits every history with per-call expected outcomes; each history is replayed on real objects and after every call raised/step/labels/content are compared (content against an uninterrupted run; chains also by prime-factor norms).",
+        "note": "Trusted: TLC, reference-run oracle for content (tolerance 1e-9), failure injection by exceptions from the user's Hamiltonian / field equation. Known findings (MeanFieldTempo field-stage failure, PtTebd restart at a pre-control step) are matched only on histories where the deviated spec predicts a non-canonical state.",
+        "technique": "TLA+ spec + TLC exhaustive over call histories and fault points; spec->code replay with per-action comparison; deviations as named spec constants",
+    },
 }
 for e in ENGINES:
     e["serves_properties"] = sorted(CHECKS)
